@@ -72,7 +72,9 @@ def search(prop, names, failure, repo):
             if c06 and c06.get('failing_input'):
                 res.setdefault('discounted_crash_witnesses', []).append(m.group(1))
                 continue
-        if crash and prop not in crash_props and not encoder_side:
+        # C20 promises that rendering any decode error as text succeeds: a panic while rendering is C20's own
+        render_side = prop == 'C20' and m.group(2).strip().startswith('error-string')
+        if crash and prop not in crash_props and not encoder_side and not render_side:
             # cross-talk guard: a decoder crash is C01's.  If the decoder's own crash search finds nothing, the crash
             # happened in this property's scenario (e.g. while re-encoding a decoded value) and counts here.
             # A panic while encoding inside the size limits counts for the properties that promise an encoding there;
